@@ -149,10 +149,11 @@ hist_prop("C03",
 
 hist_prop("C05",
     ["c05_resend_order", "c05_accept_position_alo", "c05_accept_position_eo"],
-    ["wire order and the DUP flag are judged on histories (c05_ok + hist_agree); the theorem covers identifier assignment and storage order",
+    ["wire order and DUP are proved for what resend, connect and the persisted publish write in any state satisfying the invariant (ResendOrder.v: c05_resend_writes*, c05_connect_order, c05_first_transmission, c05_batch_before_first_tx); the whole-history form 'one resend batch per connection, nothing else carries a QoS >= 1 PUBLISH' is judged on histories (c05_ok)",
+     "corners stated by the theorems: DUP = 'sequence number below the submit counter', and the counter advances only when the write loop returns without error, so a first transmission whose every byte was accepted but whose last Write call reported an error is retransmitted WITHOUT DUP (dup_corner_accepted_but_failed); and if, with such a Write, the broker's PUBACK is processed before the error returns, acked = acc > sub, the next connect has an empty window and later publishes are only enqueued until the next reconnect (backlog_stuck_corner, vm_compute). Both need a Write that returns n = len(p) together with an error; the harness's connections never do that (n < len on error), so neither was reproduced against the real client and neither is classified as a finding",
      "concurrent publishers: order = sequence-semaphore order; the per-level sequence token is proved exclusive for every accepted trace of the L3 monitor (c05_seq_exclusive) and the real client's traces are tied to the monitor by inclusion; the reduction to atomic L2 steps is an assumption"],
     "C05 generator: as C01.",
-    REFINE + "Corollaries: identifiers are assigned in acceptance order and the storage numbers of each group increase with acceptance order, which is what resend (sequence order) and restart (sort by storage number) rely on. "
+    REFINE + "Corollaries: identifiers are assigned in acceptance order and the storage numbers of each group increase with acceptance order, which is what resend (sequence order) and restart (sort by storage number) rely on. ResendOrder.v: resend offers, in sequence order from the acknowledged counter, the stored packets with DUP exactly for sequence numbers below the submit counter at entry, up to the first failure; connect writes CONNECT first, then the at-least-once batch, then the exactly-once batch (PUBRELs have the lower numbers), and only then hands out the connection; a persisted publish writes exactly the packet it saved, without DUP, and only without a backlog. "
     "c05_ok judges the trace: first transmissions in acceptance order without DUP, retransmissions with DUP (free after a restart), per-connection order of PUBLISH and PUBREL.",
     "Trusted: Coq kernel; the Session model; harness.",
     "Coq refinement + invariant proof + model/implementation correspondence")
@@ -300,7 +301,7 @@ hist_prop("C10",
     "Trusted: Coq kernel; Session and Sync models; harness; fair Go scheduler. Liveness is sampled (watchdogs: one virtual hour, 20 s real time for spinning calls).",
     "Coq proof over all states/scripts (sequential) + monitor trace inclusion on concurrent runs")
 PROPS["C10"]["modules"] = ["HistChecks", "SyncCheck"]
-PROPS["C10"]["runners"] = [{"name": "C10", "synctest": True}, {"name": "SYNC", "synctest": True}]
+PROPS["C10"]["runners"] = [{"name": "C10", "synctest": True}, {"name": "SYNC10", "synctest": True}]
 
 hist_prop("C11",
     ["c11_completion_classes", "c11_quit", "c11_canceled_only_by_quit", "c11_subscribe_outcomes", "c11_ping_outcomes", "c11_suback_count_mismatch", "c11_offline_releases"],
@@ -335,7 +336,7 @@ PROPS["C12"]["partial"] = ["liveness of Close/Disconnect: proved are the safety 
 PROPS["C12"]["level_text"] = PROPS["C12"]["level_text"].replace("Concurrency:", "Proved for every faithful accepted event sequence of the L3 monitor, any number of goroutines, any schedule: no channel panic, token conservation, closed for good, acyclic wait-for graph, Close never waits on itself, bounded progress of the write-token holder. Concurrency tie:")
 PROPS["C08"]["theorems"].append("c08_write_token_exclusive")
 PROPS["C08"]["partial"] = ["connection-log invariant of the session model (every reachable connection log = whole packets + one tail) is checked on traces (c08_ok), not yet a theorem"]
-PROPS["C08"]["runners"] = [{"name": "C08", "synctest": True}, {"name": "SYNC", "synctest": True}]
+PROPS["C08"]["runners"] = [{"name": "C08", "synctest": True}, {"name": "SYNC08", "synctest": True}]
 PROPS["C08"]["modules"] = ["C08Check", "SyncCheck"]
 PROPS["C05"]["theorems"].append("c05_seq_exclusive")
 PROPS["C10"]["theorems"] += ["c10_wait_for_acyclic", "c10_write_holder_waits_for_nothing"]
